@@ -1156,9 +1156,12 @@ func (ke *KindEngine) evalCall(c *ssa.Call, res int) *AV {
 		}
 	case "strings":
 		switch name {
-		case "Split":
+		case "Split", "SplitN":
 			a := arg(0)
 			if a == nil || !a.StrKnown {
+				return nil
+			}
+			if !isSplitCall(c, int64(len(a.Str))) {
 				return nil
 			}
 			if s, ok := constString(args[1]); !ok || !isSeparator(s) {
